@@ -73,5 +73,6 @@ func main() {
 	run.Require("v2.entries_correlated", 100)
 	run.Require("root.entries_correlated", 100)
 	run.Require("v2.complex.collision_groups", 1)
+	run.Require("v2.complex.unrequested_colliding_key_replies", 3)
 	run.Finish()
 }
